@@ -179,6 +179,37 @@ impl AddrsGuard {
     requires forall|g: AddrsGuard| g.cur().0@.contains_key(key.pk()) ==> #[trigger] g.cur().0@[key.pk()].msg.version < u64::MAX,
     ensures true,     // the obligation is the precondition of send_replace_announced
 """)
+    U.raw("""
+// ---------------- C18: arrival-order independence for one validator ----------------
+// the rule update() applies to one key (postcondition `applied`): an announcement replaces the held one iff it is strictly newer
+pub open spec fn keep_newer(cur: Option<NetAddress>, x: NetAddress) -> Option<NetAddress> {
+    match cur { None => Some(x), Some(c) => if newer(x, c) { Some(x) } else { cur } }
+}
+// the order on timestamps is a strict TOTAL order (time::Utc's derived Ord; discharged for NetAddress::is_newer on the real type by
+// the Kani harness is_newer_strict_total_order)
+pub axiom fn utc_lt_total_order(a: Utc, b: Utc, c: Utc)
+    ensures !(utc_lt(a, b) && utc_lt(b, a)), utc_lt(a, b) && utc_lt(b, c) ==> utc_lt(a, c), a != b ==> utc_lt(a, b) || utc_lt(b, a);
+// "for validators that never sign two announcements with the same (version, timestamp), all nodes that have seen the same
+//  announcements hold the same address regardless of arrival order": two announcements commute
+pub proof fn lemma_arrival_order(cur: Option<NetAddress>, a: NetAddress, b: NetAddress)
+    requires (a.version, a.timestamp) != (b.version, b.timestamp) || a == b,
+             cur matches Some(c) ==> ((c.version, c.timestamp) != (a.version, a.timestamp) || c == a)
+                                  && ((c.version, c.timestamp) != (b.version, b.timestamp) || c == b),
+    ensures keep_newer(keep_newer(cur, a), b) == keep_newer(keep_newer(cur, b), a),
+{
+    utc_lt_total_order(a.timestamp, b.timestamp, a.timestamp);
+    utc_lt_total_order(b.timestamp, a.timestamp, b.timestamp);
+    if cur is Some {
+        let c = cur->Some_0;
+        utc_lt_total_order(a.timestamp, b.timestamp, c.timestamp);
+        utc_lt_total_order(b.timestamp, a.timestamp, c.timestamp);
+        utc_lt_total_order(a.timestamp, c.timestamp, b.timestamp);
+        utc_lt_total_order(b.timestamp, c.timestamp, a.timestamp);
+        utc_lt_total_order(c.timestamp, a.timestamp, b.timestamp);
+        utc_lt_total_order(c.timestamp, b.timestamp, a.timestamp);
+    }
+}
+""", label="lemma arrival order", canary=True)
     U.assume("A3: signature verification is an uninterpreted predicate; A2: im::HashMap get/insert as a finite map; A1: HashSet")
     U.assume("NetAddress::is_newer == lexicographic (version, timestamp) is assumed here and checked on the real code by Kani (complete, loop-free)")
     return U
